@@ -11,6 +11,9 @@ Phases (each resumable, results under selftest/sweep/):
   test  [-j N]     -> tested.json     (build + cargo test in scratch worktrees under /tmp/sweep)
   check [-j N]     -> checked.json    (all checks, quick tier, on every survivor)
   report           -> prints survivors no check flagged, grouped by file/function
+  check-killed     -> checked_killed.json (the checks on the mutants the tests kill: certainly behaviour-changing)
+  triage           -> selftest/sweep_triage.json: every mutant no check flags with its category (equivalent, dead data, ...)
+  one <id> [ids]   -> run the checks on one mutant and print the reports
 """
 import concurrent.futures as cf
 import json
@@ -347,6 +350,77 @@ def fn_of(path, line):
     return '?'
 
 
+def categorise(m):
+    """(category, reason) for a mutant no check flags; '?' = not triaged (a gap until shown otherwise)"""
+    f = m['file'].split('/')[-1]
+    fn = fn_of(m['file'], m['line'])
+    old, new, op = m['old'].strip(), m['new'].strip(), m['op']
+    if fn in ('write_debug_csv', 'to_json_debug_short'):
+        return 'debug-output', 'only the debug dump changes'
+    if fn in ('width', 'height'):
+        return 'unused-api', 'BoundingBox::width/height are not used by the operations'
+    if fn == 'eq' and f == 'sweep_event.rs':
+        return 'unused-api', 'PartialEq of SweepEvent is not used by the library (heap, tree and sorts use Ord / the comparator)'
+    if fn == 'is_above':
+        return 'unused-api', 'is_above is not used by the library'
+    if m['id'] in ('m0002', 'm0003'):
+        return 'debug-assert-content', 'inside the argument list of a debug_assert!'
+    if op == 'swap-args' and re.search(r'ptr_eq|mem::swap|dot_product|\.swap\(|is_identical|get_intersection_bounding_box', old):
+        return 'symmetric-args', 'the callee is symmetric in these two arguments (for the bounding box and the vertex predicate the checks establish that)'
+    if op == 'swap-args' and 'cross_product(e, va)' in old:
+        return 'symmetric-args', 'the sign of kross flips, only its square is used'
+    if op == 'swap-args' and 'signed_area' in old and '!= 0.' in old:
+        return 'symmetric-args', 'only `!= 0` of the orientation is used here'
+    if 'depth' in old or (fn == 'initialize_from_context' and op.startswith('repl')):
+        return 'dead-data', 'Contour::depth is written but never read; the other changed branch is the defensive one'
+    if f == 'divide_segment.rs' and new == 'false,':
+        return 'dead-data', 'is_exterior_ring is only read by the debug dump'
+    if 'contour_id +=' in old or (fn == 'fill_queue' and 'exterior' in old and op == 'negate-if'):
+        return 'dead-data', 'contour ids only break ties between collinear same-operand edges with one left end point, which valid input does not contain (documented residue of C15)'
+    if fn == 'new_rc':
+        return 'dead-data', 'the initial value is overwritten before it is read (compute_fields / order_events / mark_as_processed); -2 is as negative as -1'
+    if fn == 'possible_intersection' and 'events.push' in old:
+        return 'dead-data', 'this component of the pair is never read (only .0 of these entries and .1 of the second right entry are)'
+    if fn == 'possible_intersection' and 'left_coincide && !right_coincide' in old:
+        return 'equivalent', 'the test is inside `if left_coincide`'
+    if fn == 'precompute_iteration_order' and 'vec![' in old:
+        return 'equivalent', 'every entry of the map is overwritten (T-vertex-cycle)'
+    if fn == 'process_polygon' and 'bbox.' in old and 'line.start' in old:
+        return 'equivalent', 'a ring is closed: every vertex is the end of one edge and the start of the next'
+    if re.search(r' <= | >= ', new) and re.search(r' < | > ', old):
+        return 'equivalent-by-precondition', 'the two sides are never equal here, or equality gives the same value (distinct events never compare Equal; the same-point / collinear case is handled before)'
+    if fn in ('next', 'prev') and 'splay(' in old:
+        return 'performance-only', 'the descent from the root finds the neighbour with or without the splay; only the amortised cost changes'
+    if fn == 'size_hint':
+        return 'weaker-hint', '(n, None) is a valid size hint'
+    if 'less_if(true)' in old and f == 'compare_segments.rs':
+        return 'equivalent-by-precondition', 'the branch for events without other event is defensive (debug_assert above it)'
+    if 'smin.max' in old or 'smax.min' in old or 'Overlap(' in old:
+        return 'unused-api', 'the payload of LineIntersection::Overlap is not read by the library (possible_intersection uses the end points of the events)'
+    if 'nextafter' in old and new.startswith('//'):
+        return 'not-decided', 'removing the one-ulp bump removes finding N2 and leaves corner case 1 unhandled; whether it is handled elsewhere is not decided statically'
+    return '?', ''
+
+
+def triage():
+    muts = {m['id']: m for m in load('mutants.json', [])}
+    tri = {}
+    for name, tests in (('checked.json', 'survived'), ('checked_killed.json', 'killed')):
+        for k, v in load(name, {}).items():
+            if not v:
+                c, why = categorise(muts[k])
+                tri[k] = {'category': c, 'why': why, 'file': muts[k]['file'], 'function': fn_of(muts[k]['file'], muts[k]['line']),
+                          'old': muts[k]['old'].strip(), 'new': muts[k]['new'].strip(), 'tests': tests}
+    json.dump(tri, open(os.path.join(V, 'selftest', 'sweep_triage.json'), 'w'), indent=1, sort_keys=True)
+    from collections import Counter
+    print(Counter((v['tests'], v['category']) for v in tri.values()))
+    for k, v in sorted(tri.items()):
+        if v['category'] in ('?', 'not-decided'):
+            print(k, v['tests'], v['category'], v['file'], v['function'], '|', v['old'][:70], '=>', v['new'][:70])
+    tested = load('tested.json', {})
+    print(Counter(tested.values()))
+
+
 def report():
     muts = {m['id']: m for m in load('mutants.json', [])}
     checked = load('checked.json', {})
@@ -375,6 +449,8 @@ if __name__ == '__main__':
         phase_check(jobs, '--redo-silent' in a, status='killed,timeout', out='checked_killed.json')
     elif a[0] == 'report':
         report()
+    elif a[0] == 'triage':
+        triage()
     elif a[0] == 'one':
         # sweep.py one <mutant-id> [check ids]: run the checks on one mutant and print their reports
         muts = {m['id']: m for m in load('mutants.json', [])}
